@@ -162,6 +162,23 @@ def main():
             # None of them fails on its own.  Blocks are executed in freshly forked processes, so what a run can still
             # depend on is the runs executed before it in its block: replay the block up to and including the run.
             rc, replay_path = history_replay(prop, spec, tier, seed, viol_runs, parts, core, get_engine)
+        if rc == 0 and len(viol_runs) >= 3:
+            # Violations in several independent runs, none reproducible on demand: the failure depends on interpreter state
+            # the simulator does not own (object addresses reused after garbage collection, say).  Each candidate replay is
+            # tried a few more times in fresh interpreters; one reproduction is a reproduction.
+            for path, _code, _out in attempts:
+                hits = 0
+                for _try in range(6):
+                    code, out = core.replay_in_fresh_process(path)
+                    if code == 1 and "VIOLATION property=%s" % prop in out:
+                        hits += 1
+                        break
+                if hits:
+                    print(f"  (the replay reproduces only in some fresh interpreters: the violation depends on interpreter state "
+                          f"outside the trace, e.g. object addresses; {len(viol_runs)} runs of this batch violated the property)")
+                    print(f"VIOLATION property={prop} replay={path}")
+                    rc, replay_path = 1, path
+                    break
         if rc == 0:
             path, code, out = attempts[0]
             print(f"HARNESS-ERROR replay of {path} in a fresh process did not reproduce (exit {code}):\n{out}")
